@@ -1,0 +1,156 @@
+//go:build verif
+
+package libinjection
+
+// Read-only accessors for external verification harnesses.
+// This file is only compiled with `-tags verif`; without the tag the
+// package is unchanged.
+
+// VerifToken is a copy of one SQL token plus the scan offsets around the
+// tokenize call that produced it.
+type VerifToken struct {
+	Category byte
+	Pos      int
+	Len      int
+	Count    int
+	StrOpen  byte
+	StrClose byte
+	Val      string
+	Before   int
+	After    int
+}
+
+// VerifStats is a copy of the statistics counters of a scan.
+type VerifStats struct {
+	DDX    int
+	Hash   int
+	Folds  int
+	Tokens int
+}
+
+func verifCopyToken(t *sqliToken, before, after int) VerifToken {
+	return VerifToken{
+		Category: t.category,
+		Pos:      t.pos,
+		Len:      t.len,
+		Count:    t.count,
+		StrOpen:  t.strOpen,
+		StrClose: t.strClose,
+		Val:      t.val,
+		Before:   before,
+		After:    after,
+	}
+}
+
+func verifStats(s *sqliState) VerifStats {
+	return VerifStats{DDX: s.statsCommentDDX, Hash: s.statsCommentHash, Folds: s.statsFolds, Tokens: s.statsTokens}
+}
+
+// VerifTokenize runs the raw tokenizer over input with the given flags and
+// returns every token, the final scan offset and the statistics.
+func VerifTokenize(input string, flags int) ([]VerifToken, int, VerifStats) {
+	s := new(sqliState)
+	sqliInit(s, input, flags)
+	var out []VerifToken
+	for {
+		before := s.pos
+		if !s.tokenize() {
+			break
+		}
+		out = append(out, verifCopyToken(s.current, before, s.pos))
+	}
+	return out, s.pos, verifStats(s)
+}
+
+// VerifFold runs tokenizer+folder and returns the folded tokens.
+func VerifFold(input string, flags int) ([]VerifToken, VerifStats) {
+	s := new(sqliState)
+	sqliInit(s, input, flags)
+	n := s.fold()
+	var out []VerifToken
+	for i := 0; i < n && i < len(s.tokenVec); i++ {
+		out = append(out, verifCopyToken(&s.tokenVec[i], 0, 0))
+	}
+	return out, verifStats(s)
+}
+
+// VerifFingerprint computes, on a fresh state, the fingerprint of input in
+// the given parsing context, whether it is blacklisted, and the verdict
+// (blacklisted and not whitelisted).
+func VerifFingerprint(input string, flags int) (string, bool, bool, VerifStats) {
+	s := new(sqliState)
+	sqliInit(s, input, 0)
+	fp := s.sqliFingerprint(flags)
+	black := s.blacklist()
+	verdict := s.checkFingerprint()
+	return fp, black, verdict, verifStats(s)
+}
+
+// VerifH5Tokens runs the HTML5 tokenizer from start context ctx and returns
+// (type, offset, length) for every token, stopping after maxSteps tokens.
+func VerifH5Tokens(input string, ctx int, maxSteps int) ([][3]int, bool) {
+	h := new(h5State)
+	h.init(input, ctx)
+	var out [][3]int
+	for h.next() {
+		out = append(out, [3]int{h.tokenType, len(input) - len(h.tokenStart), h.tokenLen})
+		if len(out) >= maxSteps {
+			return out, true
+		}
+	}
+	return out, false
+}
+
+// VerifIsXSSCtx is the verdict of one injection context.
+func VerifIsXSSCtx(input string, ctx int) bool { return isXSS(input, ctx) }
+
+// VerifIsBlackTag exposes isBlackTag.
+func VerifIsBlackTag(s string) bool { return isBlackTag(s) }
+
+// VerifIsBlackAttr exposes isBlackAttr.
+func VerifIsBlackAttr(s string) int { return isBlackAttr(s) }
+
+// VerifIsBlackURL exposes isBlackURL.
+func VerifIsBlackURL(s string) bool { return isBlackURL(s) }
+
+// VerifHTMLDecode exposes htmlDecodeByteAt.
+func VerifHTMLDecode(s string) (int, int) { return htmlDecodeByteAt(s) }
+
+// VerifSQLKeywords returns a copy of the keyword/fingerprint table.
+func VerifSQLKeywords() map[string]byte {
+	out := make(map[string]byte, len(sqlKeywords))
+	for k, v := range sqlKeywords {
+		out[k] = v
+	}
+	return out
+}
+
+// VerifNamedType is a copy of one (name, attribute type) list entry.
+type VerifNamedType struct {
+	Name string
+	Type int
+}
+
+// VerifBlackTags returns a copy of the black tag list.
+func VerifBlackTags() []string { return append([]string(nil), blackTags...) }
+
+// VerifBlacks returns a copy of the black attribute list.
+func VerifBlacks() []VerifNamedType {
+	var out []VerifNamedType
+	for _, b := range blacks {
+		out = append(out, VerifNamedType{b.name, b.attributeType})
+	}
+	return out
+}
+
+// VerifBlackEvents returns a copy of the event handler list.
+func VerifBlackEvents() []VerifNamedType {
+	var out []VerifNamedType
+	for _, b := range blackEvents {
+		out = append(out, VerifNamedType{b.name, b.attributeType})
+	}
+	return out
+}
+
+// VerifHexDecodeMap returns a copy of the hex digit table.
+func VerifHexDecodeMap() []int { return append([]int(nil), gsHexDecodeMap...) }
